@@ -29,7 +29,7 @@ struct VfLife {
   int uid;
   VfLife() : tag(++vf_counter()), uid(++vf_uid()) { ++vf_live(); vf_emit("BIRTH " + std::to_string(tag) + " u" + std::to_string(uid)); }
   VfLife(const VfLife &o) : tag(o.tag), uid(++vf_uid()) { ++vf_live(); vf_emit("COPY " + std::to_string(tag) + " u" + std::to_string(uid) + " from u" + std::to_string(o.uid)); }
-  VfLife &operator=(const VfLife &) { return *this; }
+  VfLife &operator=(const VfLife &o) { tag = o.tag; return *this; }     // assignment makes this object a copy of o as well
   ~VfLife() {
     if (uid <= 0) { vf_emit("DOUBLE-DEATH " + std::to_string(tag) + " u" + std::to_string(-uid)); return; }
     --vf_live(); vf_emit("DEATH " + std::to_string(tag) + " u" + std::to_string(uid)); uid = -uid;
